@@ -240,8 +240,10 @@ def run_history(w, t, hist_log):
         junk_abandon = kind == "junk" and t.choose(2, "junk with abandon handlers") == 1
         mode = [ACK, UNACK][t.choose(2, "history mode")]
         closure = bool(t.choose(2, "history closure"))
-        size = [3 * max(w.cfg.eff_seg, 1) + 1, 0, 1, 7 * max(w.cfg.eff_seg, 1), max(w.cfg.eff_seg, 1)][t.choose(5, "history size")]
-        size = min(size, 4000)
+        # (last entry: scale - a few hundred segments, so that a lossy history transaction has NAK PDUs with many requests)
+        size = [3 * max(w.cfg.eff_seg, 1) + 1, 0, 1, 7 * max(w.cfg.eff_seg, 1), max(w.cfg.eff_seg, 1), 260 * min(max(w.cfg.eff_seg, 1), 16)][
+            t.choose(6, "history size")]
+        size = min(size, 4200)
         data = bytes((7 * j + 13 * i + 1) & 0xFF for j in range(size))
         src_name = f"src/h{i}.bin"
         # one history transaction in five sends T's own source path while it holds OTHER content of the same size (the
